@@ -74,6 +74,12 @@ func HarnessC08GrpcJSON() {
 		lines = append([]string{}, lines...)
 		lines[tooLongAt] = `{"tag":"` + strings.Repeat("a", 40) + `"}`
 	}
+	// a line above the scanner's default 64 KiB that max_ammo_size admits: read on every pass alike
+	if badAt < 0 && tooLongAt < 0 && chosen == nil && vNondetBool("admittedLongLine") {
+		maxSize = 100000
+		lines = append([]string{}, lines...)
+		lines[0] = `{"tag":"` + strings.Repeat("a", 70000) + `"}`
+	}
 	fs := &hFs{content: strings.Join(lines, "\n") + "\n"}
 	p := NewProvider(fs, Config{File: "ammo", Limit: limit, Passes: passes, ChosenCases: chosen, ContinueOnError: cont, MaxAmmoSize: maxSize})
 	var runErr error
